@@ -19,7 +19,7 @@ RULE = (
     "time / iterate shifts) on a generated md-grid, plus a single-site mutation. (a) Two independent builds of the same "
     "spec must have equal _key() and hash(). (b) The mutated tree must have a different key. Mutations: one scalar value, "
     "one array entry, one matrix entry / format / shape, variable identity (name, domain, sub-variable order), "
-    "operation kind, operand order of a non-commutative node, one projection range index, one domain index, range "
+    "operation kind, operand order of a non-commutative node (both op-op and the forward / reflected pair `a o c` vs `c o a` with a Python literal c), one projection range index, one domain index, range "
     "size, DOMAIN SIZE, and projections with > 1000 indices that differ only in the middle of the index array. "
     "Function identity and time/iterate shifts are only exercised in direction (a): AbstractFunction._key documents "
     "'will be covered later' and shifted copies are documented to share identity. Non-trivial = depth >= 2 or a "
@@ -34,20 +34,20 @@ LEVEL_NOTE = ("Collisions of the underlying sha256 / Python hash are not conside
 DESIGN_REF = "DESIGN.md section 4, C45"
 ASSUMPTIONS = ["AbstractFunction keys 'will be covered later' (code comment): function identity is not required to show in keys",
                "time/iterate-shifted copies share the key of the original by design"]
-REQUIRED = {"mut-dense": 0.02, "mut-const": 0.02, "mut-mat": 0.05, "mut-leaf": 0.03, "mut-op": 0.03, "mut-swap": 0.02,
-            "mut-proj": 0.05, "bigproj": 0.03}
+REQUIRED = {"mut-dense": 0.01, "mut-const": 0.02, "mut-mat": 0.05, "mut-leaf": 0.03, "mut-op": 0.03, "mut-swap": 0.004,
+            "mut-proj": 0.05, "bigproj": 0.015, "mut-side": 0.01}
 
 MUT_PROJ = ["ran", "dom", "rsize", "dsize"]
 
 
 @st.composite
 def _spec(draw, tier):
-    if draw(st.integers(0, 11)) == 0:
+    if draw(st.integers(0, 5)) == 0:
         n = draw(st.integers(1001, 1600))
         return {"big": {"n": n, "pos": draw(st.integers(300, n - 300)), "which": draw(st.sampled_from(["ran", "dom"]))}}
     base = draw(optree_spec(max_depth=3 if tier == "quick" else 5))
     return {"base": base, "site": draw(st.integers(0, 10**6)), "variant": draw(st.integers(0, 10**6)),
-            "prefer": draw(st.sampled_from(["any", "proj", "mat", "leaf", "op"]))}
+            "prefer": draw(st.sampled_from(["any", "proj", "mat", "leaf", "op", "side", "side"]))}
 
 
 def strategy(tier):
@@ -126,6 +126,8 @@ def _sites(nd, S, under_shift=False, out=None):
     elif k in ("binc", "rbin"):
         out.append((nd, "const"))
         out.append((nd, "opc"))
+        if nd["f"] in "-/^":
+            out.append((nd, "side"))  # a o c  <->  c o a  (forward vs reflected operation on the same leaves)
     elif k == "mat":
         out.append((nd, "mat"))
     elif k == "leaf":
@@ -149,7 +151,7 @@ def mutate(tree, S, site, variant, prefer):
     """Returns (mutated deep copy, label) or (None, None) if the tree has no mutable site."""
     t = copy.deepcopy(tree)
     sites = _sites(t, S)
-    pref = {"proj": ("proj", "projsum"), "mat": ("mat",), "leaf": ("leaf",), "op": ("op", "swap", "opc")}.get(prefer)
+    pref = {"proj": ("proj", "projsum"), "mat": ("mat",), "leaf": ("leaf",), "op": ("op", "swap", "opc", "side"), "side": ("side",)}.get(prefer)
     if pref and any(s[1] in pref for s in sites):
         sites = [s for s in sites if s[1] in pref]
     if not sites:
@@ -171,6 +173,9 @@ def mutate(tree, S, site, variant, prefer):
         ops = [o for o in "+-*/^" if o != nd["f"]]
         nd["f"] = ops[v % len(ops)]
         return t, "mut-op"
+    if kind == "side":
+        nd["k"] = "rbin" if nd["k"] == "binc" else "binc"
+        return t, "mut-side"
     if kind == "swap":
         l, r = nd["l"], nd["r"]
         if build_ops(l, S)._key() == build_ops(r, S)._key():
